@@ -6,6 +6,7 @@ import (
 	"encoding/hex"
 	"encoding/json"
 	"fmt"
+	"sort"
 	"strings"
 	"sync"
 	"testing"
@@ -50,6 +51,38 @@ type c23Ev struct {
 	Class string `json:"class"` // none | own | foreign
 	N     int    `json:"n,omitempty"`
 	Root  bool   `json:"root,omitempty"`
+	// Time: shape of the event time ("" = RFC3339Nano string / msgpack timestamp);
+	// batch "time" member or X-Honeycomb-Event-Time header, sent as a string unless noted
+	Time string `json:"time,omitempty"`
+}
+
+// c23Times: every shape getEventTime documents plus the neighbours a client can
+// produce by truncation or a wrong unit. Key = case label, value = wire text.
+var c23Times = map[string]string{
+	"none": "", "empty": "", "rfc3339": "2023-11-14T22:13:20Z", "rfc3339-offset": "2023-11-14T23:13:20.5+01:00",
+	"sec10": "1535589382", "ms13": "1535589382641", "us16": "1535589382641123", "ns19": "1535589382641123456",
+	"float": "1535589382.641", "short7": "1535589", "short9": "153558938", "zero": "0", "one": "1", "neg": "-5",
+	"hex": "0x5b87", "hex-long": "0x5b87a9f1c2d3", "octal": "0755", "eleven": "15355893826", "exp": "1.5e9",
+	"garbage": "yesterday", "spacey": " 1535589382", "huge": "99999999999999999999999", "json-number": "1535589382",
+}
+
+var c23TimeKinds = func() []string {
+	ks := make([]string, 0, len(c23Times))
+	for k := range c23Times {
+		ks = append(ks, k)
+	}
+	sort.Strings(ks)
+	return ks
+}()
+
+// c23OddTime: the documentation does not say whether an event with such a time is
+// valid; only the consistency of its answer with what happened is judged.
+func c23OddTime(e c23Ev) bool {
+	switch e.Time {
+	case "", "none", "rfc3339", "rfc3339-offset", "sec10", "ms13", "us16", "ns19", "float":
+		return false
+	}
+	return true
 }
 
 type c23Req struct {
@@ -109,6 +142,9 @@ func genC23(t *rapid.T) c23Case {
 			}
 			e.N = rapid.IntRange(0, 2).Draw(t, "n")
 			e.Root = rapid.Bool().Draw(t, "root")
+			if (endpoint == "batch" || endpoint == "event") && rapid.IntRange(0, 2).Draw(t, "oddtime") == 0 {
+				e.Time = rapid.SampledFrom(c23TimeKinds).Draw(t, "time")
+			}
 			return e
 		})
 		return rapid.SliceOfN(one, 1, max)
@@ -222,9 +258,15 @@ func c23BatchElem(e c23Ev, vid string, enc string) any {
 		return map[string]any{"data": int64(5)}
 	}
 	m := map[string]any{"data": c23Data(e, vid), "samplerate": int64(2)}
-	if enc == "msgpack" {
-		m["time"] = time.Unix(1_700_000_000, 5000).UTC()
-	} else {
+	switch {
+	case e.Time == "none":
+	case e.Time == "json-number":
+		m["time"] = int64(1535589382)
+	case e.Time != "" && enc != "msgpack":
+		m["time"] = c23Times[e.Time]
+	case enc == "msgpack":
+		m["time"] = time.Unix(1_700_000_000, 5000).UTC() // msgpack batches carry a timestamp value
+	default:
 		m["time"] = "2023-11-14T22:13:20.000005Z"
 	}
 	return m
@@ -251,6 +293,9 @@ func c23HTTPRequest(r c23Req, ri int, host string) (raw []byte, halfClose bool) 
 				body = c23Marshal(r.Enc, c23Data(e, c23Vid(ri, 0)))
 			}
 			hdr = append(hdr, [2]string{"X-Honeycomb-Samplerate", "2"})
+			if e.Time != "" && e.Time != "none" {
+				hdr = append(hdr, [2]string{"X-Honeycomb-Event-Time", c23Times[e.Time]})
+			}
 		} else {
 			path = fmt.Sprintf("/1/batch/r%d", ri)
 			var arr []any
@@ -729,6 +774,12 @@ func execC23(c c23Case) vkit.Result {
 			fault = r.Key
 		case r.Fault != "":
 			fault = r.Fault
+		default:
+			for _, e := range r.Events {
+				if c23OddTime(e) {
+					fault = "odd-time"
+				}
+			}
 		}
 		tag := r.Endpoint + "/" + fault
 		where := fmt.Sprintf("req %d %s (%s listener, enc=%s comp=%q key=%s fault=%q gated=%v queue=%d)", ri, r.Endpoint, r.Listener, r.Enc, r.Comp, r.Key, r.Fault, gated, c.Queue)
@@ -888,8 +939,8 @@ func execC23(c c23Case) vkit.Result {
 			default:
 				res.Violate("C23/batch/unexpected-event-status", "%s", ev)
 			}
-			if e.Kind != "ok" {
-				continue // odd-meta: validity is a don't-care
+			if e.Kind != "ok" || c23OddTime(e) {
+				continue // odd-meta / odd time: validity is a don't-care
 			}
 			switch st {
 			case 400:
